@@ -73,8 +73,7 @@ theorem flatMap_nodup_unique {α β : Type} (f : α → List β) : ∀ (l : List
 
 /-! ### the two prefixes exclude each other -/
 
-def is1 (n : String) : Bool := n.startsWith SIDE1_PREFIX
-def is2 (n : String) : Bool := n.startsWith SIDE2_PREFIX
+-- `is1`, `is2` (the two kerning-group prefixes) are defined in Spec/C05.lean
 
 theorem is1_not_is2 (n : String) (h1 : is1 n = true) : is2 n = false := by
   cases h2 : is2 n with
